@@ -129,6 +129,8 @@ def persistence_case(fail, desc):
                 doc[0].move_up()
             elif e == "group-first":
                 Group.group_layers([doc[0]])
+            elif e == "clear":
+                doc.clear()
             docs = [doc]
     except Exception as ex:  # noqa
         fail("build-raises", info, "%s: %s" % (type(ex).__name__, str(ex)[:120]), "scene builds")
@@ -150,12 +152,27 @@ def persistence_case(fail, desc):
             info2 = dict(info, exception=type(ex).__name__, in_preview_step=preview)
             fail("save-raises", info2, "%s: %s" % (type(ex).__name__, str(ex)[:120]), "save succeeds")
             continue
-        after = doc_shape(re)
+        try:
+            after = doc_shape(re)
+        except Exception as ex:  # noqa
+            info2 = dict(info, exception=type(ex).__name__)
+            info2.pop("tree_before_edit", None)
+            try:
+                info2["reopened_names"] = _names_only(re)
+            except Exception:  # noqa
+                pass
+            fail("reopened-unreadable", info2, "%s: %s" % (type(ex).__name__, str(ex)[:120]),
+                 "the reopened document is readable and equals the edited tree %s" % (_names(before),))
+            continue
         if after != before:
             info2 = dict(info)
             info2["reopened_equals_tree_before_edit"] = (json.dumps(after) == info.get("tree_before_edit"))
             info2.pop("tree_before_edit", None)
             fail("reopen-differs", info2, _names(after), _names(before))
+
+
+def _names_only(g):
+    return [[l.name, l.kind, _names_only(l)] if l.is_group() else [l.name, l.kind] for l in g]
 
 
 def _names(sh):
@@ -270,7 +287,14 @@ def record_codes(case):
 
 def _pwork(desc):
     fails = []
-    persistence_case(lambda kind, inp, obs, exp: fails.append((kind, inp, obs, exp)), desc)
+    try:
+        persistence_case(lambda kind, inp, obs, exp: fails.append((kind, inp, obs, exp)), desc)
+    except Exception as ex:  # noqa: nothing the implementation does may kill the run
+        import traceback
+
+        d = {k: v for k, v in desc.items()}
+        fails.append(("persistence-exception", d, "%s: %s | %s" % (type(ex).__name__, ex, traceback.format_exc()[-500:]),
+                      "build, edit, save, reopen and compare run to the end"))
     return fails
 
 
@@ -322,6 +346,13 @@ def gen_persistence(ck):
                 _, ops = ec.random_walk(rng, k, rng.choice([0, 2, 5, 12]), FAM + ["SetVisible", "SetLeft", "SetTop", "SetClip"],
                                         guarded=ec.structure_guard)
                 descs.append({"source": "new", "mode": mode, "depth": depth, "scene": k, "history": [list(o) for o in ops]})
+            # the top level is emptied (clear / del / pop / delete_layer / move out every layer), then saved
+            if ok_combo:
+                for ops in ([("Clear", 0)], [("DelItem", 0, 0), ("DelItem", 0, -1)], [("Pop", 0, -1), ("Pop", 0, 0)],
+                            [("DeleteLayer", 1), ("DeleteLayer", 2)], [("MoveToGroup", 1, 5), ("MoveToGroup", 2, 5)],
+                            [("Remove", 0, 2), ("Remove", 0, 1)], [("Clear", 0), ("NewGroup", 0)], [("Clear", 2), ("Clear", 0)],
+                            [("Clear", 0), ("Append", 0, 4)]):
+                    descs.append({"source": "new", "mode": mode, "depth": depth, "scene": 0, "history": [list(o) for o in ops]})
             # group-only documents (no pixel data involved)
             for j in range(2):
                 ops = [("NewDoc", 6, 6), ("NewGroup", 0), ("NewGroup", 1), ("NewGroup", 0), ("MoveUp", 3, -1)][: 3 + 2 * j]
@@ -332,7 +363,7 @@ def gen_persistence(ck):
     files += [f for f in [_fixture("16bit5x5.psd"), _fixture("32bit5x5.psd"), _fixture("layers-minimal.psd"), _fixture("group.psd"),
                           _fixture("clipping-mask.psd")] if f]
     for f in files:
-        for e in ("new-group", "delete-first", "move-up", "group-first"):
+        for e in ("new-group", "delete-first", "move-up", "group-first", "clear"):
             descs.append({"source": f, "edit": e})
     return descs
 
